@@ -215,7 +215,7 @@ func gen(r *rand.Rand, tier string) []string {
 		for _, b := range tb {
 			for i, at := range ats {
 				for _, cons := range []int{1, 3} {
-					for _, rep := range reps {
+					for rep := 0; rep < 2*len(reps); rep++ {
 						add(cell{v: v, limit: b.limit, passes: b.passes, n: b.n, cons: cons, cap: capFor(b.limit, b.passes, b.n), mode: "tcan", at: at, jit: rep + (i+cons)%2, pad: (i % 3) * 700})
 					}
 				}
@@ -263,7 +263,7 @@ func gen(r *rand.Rand, tier string) []string {
 	extra := 400
 	maxN, maxL, maxP = 12, 30, 6
 	if thorough {
-		extra = 80000
+		extra = 150000
 		maxN, maxL, maxP = 40, 300, 12
 	}
 	for i := 0; i < extra; i++ {
